@@ -828,23 +828,7 @@ func (te *TemplateEngine) cloneDocument(source *Document) *Document {
 
 	// 深拷贝文档元素
 	for _, element := range source.Body.Elements {
-		switch elem := element.(type) {
-		case *Paragraph:
-			clonedPara := te.cloneParagraph(elem)
-			doc.Body.Elements = append(doc.Body.Elements, clonedPara)
-
-		case *Table:
-			clonedTable := te.cloneTable(elem)
-			doc.Body.Elements = append(doc.Body.Elements, clonedTable)
-
-		case *SectionProperties:
-			clonedSectPr := te.cloneSectionProperties(elem)
-			doc.Body.Elements = append(doc.Body.Elements, clonedSectPr)
-
-		default:
-			// 其他类型暂时直接复制引用
-			doc.Body.Elements = append(doc.Body.Elements, element)
-		}
+		doc.Body.Elements = append(doc.Body.Elements, te.cloneBodyElement(element))
 	}
 
 	// 深拷贝样式管理器，确保模板渲染时的样式与原模板一致
@@ -897,6 +881,101 @@ func (te *TemplateEngine) cloneDocument(source *Document) *Document {
 	doc.numberingManager = source.numberingManager.clone()
 
 	return doc
+}
+
+// cloneBodyElement 深度复制一个文档主体元素（也用于内容控件中的元素）。
+// 渲染结果与模板的基础文档之间不共享任何元素：修改其中一个不会影响另一个。
+func (te *TemplateEngine) cloneBodyElement(element interface{}) interface{} {
+	switch elem := element.(type) {
+	case *Paragraph:
+		return te.cloneParagraph(elem)
+	case *Table:
+		return te.cloneTable(elem)
+	case *SectionProperties:
+		return te.cloneSectionProperties(elem)
+	case *SDT:
+		return te.cloneSDT(elem)
+	case *MathParagraph:
+		return te.cloneMathParagraph(elem)
+	case *BookmarkStart:
+		return &BookmarkStart{ID: elem.ID, Name: elem.Name}
+	case *BookmarkEnd:
+		return &BookmarkEnd{ID: elem.ID}
+	default:
+		// 库本身不会产生其他类型的元素
+		return element
+	}
+}
+
+// cloneSDT 深度复制内容控件（例如目录）
+func (te *TemplateEngine) cloneSDT(source *SDT) *SDT {
+	newSDT := &SDT{}
+
+	if source.Properties != nil {
+		props := &SDTProperties{
+			RunPr: te.cloneRunProperties(source.Properties.RunPr),
+		}
+		if source.Properties.ID != nil {
+			props.ID = &SDTID{Val: source.Properties.ID.Val}
+		}
+		if source.Properties.Color != nil {
+			props.Color = &SDTColor{Val: source.Properties.Color.Val}
+		}
+		if source.Properties.DocPartObj != nil {
+			props.DocPartObj = &DocPartObj{}
+			if source.Properties.DocPartObj.DocPartGallery != nil {
+				props.DocPartObj.DocPartGallery = &DocPartGallery{Val: source.Properties.DocPartObj.DocPartGallery.Val}
+			}
+			if source.Properties.DocPartObj.DocPartUnique != nil {
+				props.DocPartObj.DocPartUnique = &DocPartUnique{}
+			}
+		}
+		if source.Properties.Placeholder != nil {
+			props.Placeholder = &SDTPlaceholder{}
+			if source.Properties.Placeholder.DocPart != nil {
+				props.Placeholder.DocPart = &DocPart{Val: source.Properties.Placeholder.DocPart.Val}
+			}
+		}
+		newSDT.Properties = props
+	}
+
+	if source.EndPr != nil {
+		newSDT.EndPr = &SDTEndPr{RunPr: te.cloneRunProperties(source.EndPr.RunPr)}
+	}
+
+	if source.Content != nil {
+		content := &SDTContent{Elements: make([]interface{}, 0, len(source.Content.Elements))}
+		for _, element := range source.Content.Elements {
+			content.Elements = append(content.Elements, te.cloneBodyElement(element))
+		}
+		newSDT.Content = content
+	}
+
+	return newSDT
+}
+
+// cloneMathParagraph 深度复制公式段落
+func (te *TemplateEngine) cloneMathParagraph(source *MathParagraph) *MathParagraph {
+	newPara := &MathParagraph{
+		Properties: te.cloneParagraphProperties(source.Properties),
+		Runs:       make([]Run, len(source.Runs)),
+	}
+
+	if source.Math != nil {
+		newPara.Math = &OfficeMath{Xmlns: source.Math.Xmlns, RawXML: source.Math.RawXML}
+	}
+	if source.MathPara != nil {
+		newPara.MathPara = &OfficeMathPara{Xmlns: source.MathPara.Xmlns}
+		if source.MathPara.Math != nil {
+			newPara.MathPara.Math = &OfficeMath{Xmlns: source.MathPara.Math.Xmlns, RawXML: source.MathPara.Math.RawXML}
+		}
+	}
+
+	for i := range source.Runs {
+		newPara.Runs[i] = te.cloneRun(&source.Runs[i])
+	}
+
+	return newPara
 }
 
 // cloneAllDocumentParts 复制所有文档部件，确保完整保留原文档结构
